@@ -190,7 +190,10 @@ def configs(tier: str) -> List[Cfg]:
     # parse-tree domain: rules in which the same non-empty class occurs twice among the children
     fams = ["one"] if tier == "quick" else ["one", "two"]
     for fam in fams:
-        for g in dg.grammars(fam):
+        gs = dg.grammars(fam)
+        if fam == "two":
+            gs = gs[::6]  # every 6th two-nonterminal grammar (the full family made the tier too long)
+        for g in gs:
             res.append(GCfg(g, (), "g", "RuleDB"))
     return res
 
